@@ -10,9 +10,12 @@
                           Positions.pos_at on the whole-input segmentation,
                           for every token up to the first token boundary (or
                           gap byte) that is not a cluster boundary
+       check_posat_node_cases  the same, plus the Start / End of every range of
+                          the parsed tree (node, computed and diagnostic ranges)
+                          against pos_at (points_walk; points_walk_sound)
    (c) check_rs_cases     RangeScanner ranges against Positions.range_scanner *)
 From Coq Require Import String Ascii.
-From HclV Require Import Base.Prelude Gen.TokenTypes Lex.Scanner Lex.Positions Lex.HclLex.
+From HclV Require Import Base.Prelude Gen.TokenTypes Lex.Scanner Lex.Positions Lex.PositionsProofs Lex.HclLex.
 Open Scope Z_scope.
 Open Scope list_scope.
 
@@ -132,6 +135,68 @@ Definition check_posat_case (c : pcase) : bool :=
   let '(data, st) := scan_start (unhex (pc_hex c)) (pc_start c) in
   posat_walk (mkWalk st data (unhex (pc_gcs c))) (pc_toks c).
 Definition check_posat_cases (cs : list pcase) : list Z := failing check_posat_case cs.
+
+(* ---- (b') node ranges -------------------------------------------------------------- *)
+
+(* The Start / End positions of every range of the parsed tree (node fields found
+   by a reflective walk, computed ranges, diagnostic ranges — harness/cmd/c14/
+   noderanges.go) for a parse with start = hcl.InitialPos, ascending by byte
+   offset. Every one must be pos_at of its byte offset on the whole-input
+   segmentation: the walk below continues from point to point and fails on a
+   point that is not a cluster boundary (the harness sends only positions whose
+   column the property defines) or whose line / column differ.
+   points_walk_sound: acceptance implies pos_at ... (p_byte p) = Some p for
+   every point. *)
+Fixpoint points_walk (w : walk) (pts : list pos) : bool :=
+  match pts with
+  | [] => true
+  | p :: r =>
+      match walk_to is_nl_lexer (w_cl w) (w_pos w) (w_data w) (p_byte p) with
+      | None => false
+      | Some w1 => pos_eqb (w_pos w1) p && points_walk w1 r
+      end
+  end.
+
+Definition check_points (hex gcs : string) (pts : list pos) : bool :=
+  let '(data, st) := scan_start (unhex hex) initial_pos in
+  points_walk (mkWalk st data (unhex gcs)) pts.
+
+Definition check_posat_node_case (c : pcase * list pos) : bool :=
+  check_posat_case (fst c) && check_points (pc_hex (fst c)) (pc_gcs (fst c)) (snd c).
+Definition check_posat_node_cases (cs : list (pcase * list pos)) : list Z := failing check_posat_node_case cs.
+
+Lemma pos_eqb_eq a b : pos_eqb a b = true -> a = b.
+Proof.
+  unfold pos_eqb. intro H. apply andb_true_iff in H. destruct H as [H H3].
+  apply andb_true_iff in H. destruct H as [H1 H2].
+  apply Z.eqb_eq in H1. apply Z.eqb_eq in H2. apply Z.eqb_eq in H3.
+  destruct a, b; cbn in *; subst; reflexivity.
+Qed.
+
+Lemma points_walk_sound_gen (start : pos) (data gcs : list Z) : forall pts w,
+  (forall off, p_byte (w_pos w) <= off ->
+     walk_to is_nl_lexer (w_cl w) (w_pos w) (w_data w) off = walk_to is_nl_lexer gcs start data off) ->
+  points_walk w pts = true ->
+  Forall (fun p => pos_at is_nl_lexer start data gcs (p_byte p) = Some p) pts.
+Proof.
+  induction pts as [|p r IH]; intros w Hinv H; [constructor|].
+  cbn [points_walk] in H.
+  destruct (walk_to is_nl_lexer (w_cl w) (w_pos w) (w_data w) (p_byte p)) as [w1|] eqn:E; [|discriminate].
+  apply andb_true_iff in H. destruct H as [Hp Hr]. apply pos_eqb_eq in Hp.
+  pose proof (walk_to_spec _ _ _ _ _ _ E) as (pre & _ & Hpos & _ & Hle).
+  constructor.
+  - rewrite (Hinv _ Hle) in E. apply walk_to_pos_at in E. rewrite E, Hp. reflexivity.
+  - apply (IH w1); [|exact Hr]. intros off Hoff.
+    assert (Hb : p_byte (w_pos w1) = p_byte p) by (rewrite Hp; reflexivity).
+    rewrite (walk_to_compose _ _ _ _ _ off _ E) by lia.
+    apply Hinv. lia.
+Qed.
+
+(* what an accepted list of points means: each is the canonical position of its byte offset *)
+Theorem points_walk_sound (start : pos) (data gcs : list Z) (pts : list pos) :
+  points_walk (mkWalk start data gcs) pts = true ->
+  Forall (fun p => pos_at is_nl_lexer start data gcs (p_byte p) = Some p) pts.
+Proof. apply points_walk_sound_gen. intros off _. reflexivity. Qed.
 
 (* ---- (c) RangeScanner ------------------------------------------------------------ *)
 
